@@ -1,18 +1,82 @@
 import XmppModel.Driver.C01
+import XmppModel.Model.Component
 /-! Driver for C04: the negotiation model of C01 with faults (same line syntax, see
-`Driver/C01.lean`). -/
+`Driver/C01.lean`), the predictions for the handshakes with the library's own features, and
+the component handshake model. -/
 namespace XmppModel.Driver.C04
+open XmppModel
+
+namespace Comp
+open XmppModel.Component
+
+def parseItem (s : String) : Option Item :=
+  if s == "P" then some .pi else if s == "S1" then some (.hdr true) else if s == "S0" then some (.hdr false)
+  else if s == "Sx" then some .hdrBad else if s == "K" then some .ack else if s == "X" then some .serr
+  else if s == "O" then some .other else if s == "T" then some .text else none
+
+def showEv : Ev → String
+  | .wr true => "W" | .wr false => "W!"
+  | .rd .got => "R" | .rd .eof => "Re" | .rd .fault => "R!"
+  | .blocked true => "Wb" | .blocked false => "Rb"
+
+def isBlocked : Ev → Bool
+  | .blocked _ => true
+  | _ => false
+
+/-- the `fault` field, as in `Driver/C01.lean` (`k`, `k+`, `Cn`, `CB`, `Hk`, `Bk`, joined by `/`) -/
+def parsePart (O : Oracle) (s : String) : Option Oracle :=
+  if s == "-" then some O
+  else if s == "CB" then some { O with cancel := fun tr => tr.any isBlocked }
+  else if s.startsWith "C" then do
+    let k ← ((s.drop 1).toString).toNat?
+    pure { O with cancel := fun tr => decide (k ≤ tr.length) }
+  else if s.startsWith "H" then do
+    let k ← ((s.drop 1).toString).toNat?
+    pure { O with block := fun i => i == k }
+  else if s.startsWith "B" then do
+    let k ← ((s.drop 1).toString).toNat?
+    pure { O with block := fun i => i == k, cancel := fun tr => tr.any isBlocked }
+  else if s.endsWith "+" then do
+    let k ← ((s.dropEnd 1).toString).toNat?
+    pure { O with fault := fun i => decide (k ≤ i) }
+  else do
+    let k ← s.toNat?
+    pure { O with fault := fun i => i == k }
+
+def quiet : Oracle :=
+  { fault := fun _ => false, cancel := fun _ => false, block := fun _ => false, dlRd := true, dlWr := true }
+
+def showOutcome : Pc → String
+  | .done => "done"
+  | .fail .io => "fail:io" | .fail .proto => "fail:proto" | .fail .streamErr => "fail:streamerr"
+  | .hung _ => "STALL"
+  | _ => "fuel"
+
+/-- `comp <st0> <script> <fault>` -/
+def handle (st0 script fault : String) : Option String := do
+  let st0 ← st0.toNat?
+  let sc ← mapM? parseItem (splitList script ',')
+  let O ← (fault.splitOn "/").foldlM parsePart quiet
+  let c := run O (2 * sc.length + 8) (init sc)
+  let evs := c.tr.reverse.map showEv
+  pure s!"{joinList evs} {showOutcome c.pc} {st0 ||| resultMask c}"
+
+end Comp
 
 /-- `hs <name> <kind> <n>`: a handshake with the library's own features under one fault
 (`cut` of the peer's stream after `n` bytes, failing `rd`/`wr` number `n`, `cancel` before the
-peer's step `n`); the prediction is `C04_fail_closed`: any fault ends in failure, the
-fault-free run (`clean`) completes -/
+peer's step `n`; over a real net.Pipe: `pwr` cancellation while blocked in write `n`, `prd` while
+blocked in the read before the peer's step `n`); the prediction is `C04_fail_closed`: any fault
+ends in failure, the fault-free run (`clean`, `pclean`) completes.
+`comp <st0> <script> <fault>`: the component handshake model (`Model/Component.lean`). -/
 def handle (args : List String) : Option String :=
   match args with
   | ["hs", _name, kind, _n] =>
-    if kind == "clean" then some "done"
-    else if kind == "cut" || kind == "rd" || kind == "wr" || kind == "cancel" then some "fail"
+    if kind == "clean" || kind == "pclean" then some "done"
+    else if kind == "cut" || kind == "rd" || kind == "wr" || kind == "cancel" || kind == "pwr" || kind == "prd"
+      then some "fail"
     else none
+  | ["comp", st0, script, fault] => Comp.handle st0 script fault
   | _ => XmppModel.Driver.C01.handle args
 
 end XmppModel.Driver.C04
